@@ -11,8 +11,14 @@ use serde::{Deserialize, Serialize};
 use std::sync::Arc;
 
 /// f64 stored as its shortest round-trip text (so NaN / inf / -0.0 survive JSON)
-#[derive(Clone, Copy, Debug, PartialEq)]
+#[derive(Clone, Copy, Debug)]
 pub struct Fl(pub f64);
+/// bitwise equality: -0.0 != 0.0, NaN == NaN (same payload) — "the same value" for constant detection
+impl PartialEq for Fl {
+    fn eq(&self, o: &Fl) -> bool {
+        self.0.to_bits() == o.0.to_bits()
+    }
+}
 impl Serialize for Fl {
     fn serialize<S: serde::Serializer>(&self, s: S) -> Result<S::Ok, S::Error> {
         s.serialize_str(&format!("{:?}", self.0))
@@ -582,10 +588,10 @@ pub fn render_into(a: &dyn Array, i: usize, out: &mut String) {
             out.push_str(&if x.is_nan() { "fNaN".to_string() } else { format!("f{x:?}") })
         }
         DataType::Float64 => out.push_str(&format!("f{}", fl(a.as_primitive::<Float64Type>().value(i)))),
-        DataType::Decimal32(_, s) => out.push_str(&format!("d{}e-{}", a.as_primitive::<Decimal32Type>().value(i), s)),
-        DataType::Decimal64(_, s) => out.push_str(&format!("d{}e-{}", a.as_primitive::<Decimal64Type>().value(i), s)),
-        DataType::Decimal128(_, s) => out.push_str(&format!("d{}e-{}", a.as_primitive::<Decimal128Type>().value(i), s)),
-        DataType::Decimal256(_, s) => out.push_str(&format!("d{}e-{}", a.as_primitive::<Decimal256Type>().value(i), s)),
+        DataType::Decimal32(_, s) => out.push_str(&decimal_text(&a.as_primitive::<Decimal32Type>().value(i).to_string(), *s)),
+        DataType::Decimal64(_, s) => out.push_str(&decimal_text(&a.as_primitive::<Decimal64Type>().value(i).to_string(), *s)),
+        DataType::Decimal128(_, s) => out.push_str(&decimal_text(&a.as_primitive::<Decimal128Type>().value(i).to_string(), *s)),
+        DataType::Decimal256(_, s) => out.push_str(&decimal_text(&a.as_primitive::<Decimal256Type>().value(i).to_string(), *s)),
         DataType::Utf8 => out.push_str(&format!("{:?}", a.as_string::<i32>().value(i))),
         DataType::LargeUtf8 => out.push_str(&format!("{:?}", a.as_string::<i64>().value(i))),
         DataType::Utf8View => out.push_str(&format!("{:?}", a.as_string_view().value(i))),
@@ -666,6 +672,21 @@ pub fn render_into(a: &dyn Array, i: usize, out: &mut String) {
             }
         }
     }
+}
+
+/// decimal as `d<digits>e<exp>` with trailing zeros moved into the exponent: the numeric value only
+/// (0.00 at scale 2 and 0 at scale 0 are the same value; result precision / scale is an encoding)
+fn decimal_text(unscaled: &str, scale: i8) -> String {
+    let (neg, digits) = match unscaled.strip_prefix('-') {
+        Some(d) => (true, d),
+        None => (false, unscaled),
+    };
+    let trimmed = digits.trim_end_matches('0');
+    if trimmed.is_empty() {
+        return "d0".into();
+    }
+    let exp = (digits.len() - trimmed.len()) as i32 - scale as i32;
+    format!("d{}{}e{}", if neg { "-" } else { "" }, trimmed, exp)
 }
 
 fn render_list(elems: &dyn Array, out: &mut String) {
